@@ -6,28 +6,28 @@ func init() {
 		"the whole statement in the form `no public operation writes memory that existed before it started` (R1 over every public root: receiver, arguments and every frame, grouper or view that shares storage with them stay bit-for-bit unchanged for every sharing history; append on a prestate slice counts as a write).",
 		"nothing is excluded; the verdict rests on the points-to abstraction (allocation-site objects, folded recursive paths, by-value nesting bounded at 5) and on the library summary table.",
 		"New keeps the caller's slices by reference: a caller who later writes them alters the frame (caller's write, outside the property)")
-	prop("C02", []string{"R3", "R4", "R5", "R6", "R7", "R8", "R42", "R40", "R31", "R35", "R59", "R57", "R67", "R74", "R79", "R80"},
+	prop("C02", []string{"R3", "R4", "R5", "R6", "R7", "R8", "R42", "R40", "R31", "R35", "R59", "R57", "R67", "R74", "R79", "R80", "R98"},
 		"(i) OR accumulation is sound for every nesting: every store into the shared boolean index is monotone (R3); (ii) every built-in comparison kernel compares with the operator its table key names, cell on the left, column arguments read on the same row, all five types agreeing (R4); (iii) the negation shortcut is the logical complement including nulls, per column type (R5); (iv) kernels read the cell of row i at physical position index[i] and write bit i (R6, R42); (v) kept rows are a subsequence of the frame's rows in order, once each, foreign positions excluded (R7, R8); errors of column kernels reach Err (R31).",
 		"that orFrames' merge selects exactly the union and NotClause exactly the difference (value reasoning; they are in-order subsequences by R8); semantics of in/any_bits/all_bits; int<->float promotion; user predicates.")
 	prop("C03", []string{"R9", "R10", "R7", "R1s", "R6", "R78"},
 		"(i) the result is a permutation of the frame's rows, each whole: the sorter only exchanges elements of a private copy of the index (R9, R1s, R7); (ii) per type the order table encodes Reverse/NullLast exactly as stated and Compare returns the table entry matching the actual relation and nullness of the two cells (R10); comparisons receive physical positions (R6); Less is the lexicographic composition with null-vs-null ties falling through (R10c).",
 		"that quickSort/doPivot/heapSort/insertionSort arrange the index in non-decreasing order of Less: algorithm correctness over all n and tie structures; a mis-sorting change inside those four functions is NOT detected (it is still a permutation).")
-	prop("C04", []string{"R11", "R12", "R10", "R13", "R17", "R6", "R7", "R8", "R40", "R37", "R38", "R54", "R55", "R1g", "R25", "R72"},
+	prop("C04", []string{"R11", "R12", "R10", "R13", "R17", "R6", "R7", "R8", "R40", "R37", "R38", "R54", "R55", "R1g", "R25", "R72", "R93", "R98"},
 		"group indexes contain only rows of the frame (R7) and are private to the call (R1g); an occupied table entry is selected only after equals said so (R11); hash and equality agree incl. signed zeros and NaNs (R12, R10); probe positions are masked by the length of the very table they index (R38); every aggregate value is the aggregation function applied to the group's compact values in frame order, one call per group (R37, R40, R8); result columns are placed consistently and named legally (R13, R17); Columns/Null options are consulted (R25).",
 		"the open-addressing table as an algorithm (that every row is inserted exactly once and found again across growth steps beyond the mask/equality conditions); that sum/min/max/avg/majority compute what their names say.")
-	prop("C05", []string{"R11", "R12", "R10", "R6", "R7", "R8", "R38", "R54", "R55", "R1g", "R25", "R39", "R74", "R76"},
+	prop("C05", []string{"R11", "R12", "R10", "R6", "R7", "R8", "R38", "R54", "R55", "R1g", "R25", "R39", "R74", "R76", "R93", "R98"},
 		"returned rows are input rows, unmodified (R7: first positions come from the index; withIndex shares columns; R1g); each occupied table entry contributes exactly once (R8 on the collection loop); entries are distinct keys (R11) and equal keys share a hash (R12, R10); probing is masked by the table's own length (R38); options are consulted (R25); column names are validated before any success return (R39).",
 		"the open-addressing table as an algorithm (same as C04).")
-	prop("C06", []string{"R6", "R42", "R40", "R53", "R13", "R8", "R1a", "R43", "R68", "R82"},
+	prop("C06", []string{"R6", "R42", "R40", "R53", "R13", "R8", "R1a", "R43", "R68", "R82", "R98"},
 		"source and destination use the same physical row, result slices are sized by the column's physical length (R42), user functions run once per row of the frame in frame order (R40), every access goes through the index (R6); the destination replaces an existing column in its position or is appended last for frames however derived (R13); nothing else changes (R1a); FilteredApply restores the original index on the result (R43).",
 		"which built-in a name resolves to; result typing by function signature; zero/null fill of unmatched rows (follows from make's zero values plus R42's sizing; argued, not checked).")
-	prop("C07", []string{"R14", "R15", "R21", "R31", "R53", "R1a", "R1x", "R47", "R13", "R40", "R42", "R6"},
+	prop("C07", []string{"R14", "R15", "R21", "R31", "R53", "R1a", "R1x", "R47", "R13", "R40", "R42", "R6", "R93"},
 		"no temporary survives and no original column is dropped (R14); operands are applied in the order written in the binary forms, across the constructor/execute pairs (R15); function lookups are comma-ok and failures surface through Err (R21, R31); evaluation does not write the original frame or the evaluation context (R1a).",
 		"the left fold of n-ary Expr (recursive slice surgery); decoding priority in newExpr; that the function found is the right one.")
-	prop("C08", []string{"R16", "R17", "R18", "R13", "R19", "R25", "R1n", "R39", "R51", "R1r", "R73", "R82"},
+	prop("C08", []string{"R16", "R17", "R18", "R13", "R19", "R25", "R1n", "R39", "R51", "R1r", "R73", "R82", "R93", "R98"},
 		"unequal lengths are rejected for every column order (R16); illegal names never enter a frame (R17); Slice validates 0<=start<=end<=len before slicing (R18); positions stay consistent through New/Select/Drop/Copy (R13); the string cell packing is one consistent bit layout (R19); ColumnOrder/Enums are consulted (R25); projections do not disturb the source (R1n); column names are validated before any success return (R39).",
 		"that cell values are reproduced (value level); alphabetical default order (a sort.Strings call exists; listed, not proved); byte-blob offsets in scolumn.New*.")
-	prop("C09", []string{"R6", "R42", "R44", "R63", "R70", "R13", "R84", "R85"},
+	prop("C09", []string{"R6", "R42", "R44", "R63", "R70", "R13", "R84", "R85", "R98"},
 		"every accessor translates logical row i to position index[i]: views, ToCSV, ToJSON, String, ToSQL builders, Equals (R6); Equals reads the receiver through its own index and the other column through the other index at the same logical row, for all five types, and a type mismatch is unequal (R44); column order observed through names and through positions agree (R13).",
 		"reflexivity/symmetry/transitivity as such; NaN/null equality is checked only as far as R44's shape; String's truncation; `rebuilt with New is Equal`.")
 	prop("C10", []string{"R20", "R21", "R22", "R23", "R17", "R18", "R31", "R41", "R39", "R46", "R52", "R16", "R81", "R84"},
@@ -37,10 +37,10 @@ func init() {
 		"race freedom for every schedule by a frame-rule argument: locations reachable by two operations are prestate of both or global; no public operation writes prestate (R1) or package-level state, the library starts no goroutine, uses no sync primitive and holds no private random generator (R2); every other write targets objects allocated inside the operation.",
 		"nothing is excluded, but the argument is only as good as its assumptions; no happens-before detector is used (different technique).",
 		"math/rand top-level functions and *regexp.Regexp are goroutine safe (documented)")
-	prop("C12", []string{"R24", "R61", "R29", "R25", "R31", "R45", "R49", "R50", "R56", "R62", "R1r", "R86", "R87", "R88"},
+	prop("C12", []string{"R24", "R61", "R29", "R25", "R31", "R45", "R49", "R50", "R56", "R62", "R1r", "R86", "R87", "R93", "R98"},
 		"necessary conditions only: short reads are handled wherever the stream is read (R24); a failing reader is never taken for end of input (R29); all nine options are consulted (R25); reader errors propagate (R31); type inference tries int, float, bool, string in that order (R45); two necessary conditions of fragmentation independence: no scanner decision is taken on the buffer fill level without refilling (R50), and per-column byte buffers never share a backing array (R49).",
 		"THE CORE OF THE PROPERTY: that the scanner's output is independent of where read boundaries fall, quote compaction, CRLF handling, buffer growth (a hand-written state machine over all documents and read schedules).")
-	prop("C13", []string{"R26", "R6", "R25", "R30", "R34", "R1w", "R1r", "R69"},
+	prop("C13", []string{"R26", "R6", "R25", "R30", "R34", "R1w", "R1r", "R69", "R93", "R98"},
 		"necessary conditions only: writer and reader use inverse conversions with lossless arguments for every type, NaN/null <-> empty cell (R26); rows and cells are emitted through the index (R6); Header/Columns are consulted (R25); write failures surface (R30).",
 		"agreement of encoding/csv's quoting with the custom scanner's unquoting for arbitrary bytes; round-trip equality is value level.")
 	prop("C14", []string{"R27", "R28", "R58", "R6", "R85"},
@@ -59,7 +59,7 @@ func init() {
 	prop("C18", []string{"R35", "R59", "R57", "R33", "R3", "R42", "R74"},
 		"matcher selection and anchoring for all 16 pattern classes, both column types agreeing (R35); the custom upper-casing never stores a non-ASCII rune as a single byte (R33); nulls never reach the matcher (R35 dominance; enum matching ranges over values).",
 		"agreement of the rest of the ToUpper copy with strings.ToUpper (buffer growth, length-changing code points); regular-expression assembly.")
-	prop("C19", []string{"R6", "R36", "R25", "R29", "R31", "R41", "R48", "R2c", "R1w", "R1r", "R71", "R83"},
+	prop("C19", []string{"R6", "R36", "R25", "R29", "R31", "R41", "R48", "R2c", "R1w", "R1r", "R71", "R83", "R90", "R91", "R93"},
 		"necessary conditions only: rows and arguments are taken through the index in frame order (R6); all five column types have an argument builder (R36); all dialect/config fields are consulted (R25); driver errors surface and a failing result set is not taken for a complete one (R29, R31, R41).",
 		"statement text per dialect; typed scanning and NULL back-fill; write/read agreement through a real store.")
 }
